@@ -138,6 +138,11 @@ impl Ctx {
             std::thread::spawn(move || {
                 let mut seen = 0u64;
                 let mut cpu_at_start = 0u64;
+                // third rule: the whole process has burnt (next to) no CPU time for 30 s while a case is running - every
+                // thread is waiting, for longer than any deadline the harness itself sets (at most about 22 s): a deadlock,
+                // whatever the case's wall-clock allowance is
+                let mut idle_cpu = 0u64;
+                let mut idle_since = 0u64;
                 loop {
                     std::thread::sleep(Duration::from_millis(100));
                     let started = hb.load(Ordering::Relaxed);
@@ -145,11 +150,21 @@ impl Ctx {
                         seen = 0;
                         continue;
                     }
+                    let now = t0.elapsed().as_millis() as u64 + 1;
                     if started != seen {
                         seen = started;
                         cpu_at_start = process_cpu_ms();
+                        idle_cpu = cpu_at_start;
+                        idle_since = now;
                     }
-                    let now = t0.elapsed().as_millis() as u64 + 1;
+                    let cpu_now = process_cpu_ms();
+                    if cpu_now > idle_cpu + 40 {
+                        idle_cpu = cpu_now;
+                        idle_since = now;
+                    } else if now > idle_since + 30_000 {
+                        let _ = std::fs::write(format!("{od}/hang"), b"hang\n");
+                        std::process::exit(3);
+                    }
                     if now > started + case_timeout_ms {
                         let cpu = process_cpu_ms().saturating_sub(cpu_at_start);
                         if cpu * 2 >= case_timeout_ms || now > started + 5 * case_timeout_ms {
